@@ -181,7 +181,14 @@ def check_optional_by_none(ctx, rule: str, functions: List[FunctionInfo], kinds=
             if not (isinstance(d, ast.Constant) and d.value is None):
                 continue
             ann = next((a.annotation for a in fi.node.args.posonlyargs + fi.node.args.args + fi.node.args.kwonlyargs if a.arg == p), None)
-            if ann is None or unparse(ann) not in kinds:
+            if ann is None:
+                continue
+            at = unparse(ann).replace(" ", "")
+            for pre, post in (("Optional[", "]"), ("Union[", ",None]"), ("typing.Optional[", "]")):
+                if at.startswith(pre) and at.endswith(post):
+                    at = at[len(pre):len(at) - len(post)]
+            at = at.replace("|None", "")
+            if at not in kinds:
                 continue
             bad = [x for x in truth_tested_names(fi.node) if x.id == p]
             n += 1
